@@ -195,6 +195,19 @@ func c08edits(doc *jmut.Node) []c08edit {
 					break
 				}
 			}
+			// a null element put in front of / behind the others (a list with an empty
+			// slot is another list; where the library tolerates such a slot the digest
+			// has to tell the two apart)
+			for _, front := range []bool{true, false} {
+				d := doc.Clone()
+				a := d.At(p)
+				if front {
+					a.A = append([]*jmut.Node{jmut.Nl()}, a.A...)
+				} else {
+					a.A = append(a.A, jmut.Nl())
+				}
+				out = append(out, c08edit{"null-element", p, d})
+			}
 			// one element said twice (first and last are tried)
 			for _, i := range []int{0, len(x.A) - 1} {
 				if i < 0 {
@@ -639,5 +652,5 @@ func runC08(c *Ctx) {
 			}
 		}
 	})
-	c.Require("recalculated_digests_compared_with_reference", "edits_parsed:alter-negate", "recalculated_through_insert", "detected_with_key:digest", "edits_parsed:alter-float-next", "reused_target_decodes", "cli_verify_runs", "reencodings:shuffle")
+	c.Require("recalculated_digests_compared_with_reference", "edits_parsed:alter-negate", "edits_parsed:null-element", "recalculated_through_insert", "detected_with_key:digest", "edits_parsed:alter-float-next", "reused_target_decodes", "cli_verify_runs", "reencodings:shuffle")
 }
